@@ -13,6 +13,7 @@ package c16
 
 import (
 	"encoding/json"
+	"errors"
 	"fmt"
 	"os"
 	"path/filepath"
@@ -22,14 +23,40 @@ import (
 	"strings"
 	"time"
 
+	"github.com/compose-spec/compose-go/v2/template"
 	"github.com/compose-spec/compose-go/v2/types"
 
 	"verifharness/core"
 )
 
+// c16Seg is one segment of a value in C07's wire format: literal, `$$`, `$NAME` / `${NAME}`, `${NAME<op>arg}`.
 type c16Seg struct {
-	Lit *string `json:"lit,omitempty"`
-	Ref *string `json:"ref,omitempty"`
+	Lit    *string  `json:"lit,omitempty"`
+	Esc    *bool    `json:"esc,omitempty"`
+	Var    *string  `json:"var,omitempty"`
+	Braced bool     `json:"braced,omitempty"`
+	Op     *string  `json:"op,omitempty"`
+	O      string   `json:"o,omitempty"`
+	Arg    []c16Seg `json:"arg,omitempty"`
+}
+
+func c16RenderSegs(l []c16Seg) string {
+	var b strings.Builder
+	for _, s := range l {
+		switch {
+		case s.Lit != nil:
+			b.WriteString(*s.Lit)
+		case s.Esc != nil:
+			b.WriteString("$$")
+		case s.Var != nil && s.Braced:
+			b.WriteString("${" + *s.Var + "}")
+		case s.Var != nil:
+			b.WriteString("$" + *s.Var)
+		case s.Op != nil:
+			b.WriteString("${" + *s.Op + s.O + c16RenderSegs(s.Arg) + "}")
+		}
+	}
+	return b.String()
 }
 
 type c16Line struct {
@@ -89,15 +116,7 @@ func c16RenderLines(ls []c16Line) string {
 		case l.Bare != nil:
 			b.WriteString(*l.Bare + "\n")
 		case l.K != nil:
-			b.WriteString(*l.K + "=")
-			for _, s := range l.V {
-				if s.Ref != nil {
-					b.WriteString("${" + *s.Ref + "}")
-				} else if s.Lit != nil {
-					b.WriteString(*s.Lit)
-				}
-			}
-			b.WriteString("\n")
+			b.WriteString(*l.K + "=" + c16RenderSegs(l.V) + "\n")
 		default:
 			b.WriteString("A B=1\n")
 		}
@@ -179,6 +198,11 @@ var c16ErrClasses = []struct {
 }
 
 func c16ErrClass(err error) string {
+	var inv *template.InvalidTemplateError
+	var req *template.MissingRequiredError
+	if errors.As(err, &inv) || errors.As(err, &req) {
+		return "template"
+	}
 	t := err.Error()
 	for _, c := range c16ErrClasses {
 		if c.re.MatchString(t) {
@@ -603,6 +627,10 @@ func c16JudgeOracle(args, real, drv json.RawMessage) *core.Verdict {
 		Err         *string            `json:"err"`
 		Environment map[string]*string `json:"environment"`
 		Labels      map[string]*string `json:"labels"`
+		WF          *bool              `json:"wf"`
+	}
+	if json.Unmarshal(drv, &spec) == nil && spec.WF != nil && !*spec.WF {
+		return core.Skip("a value is not an unambiguous template (outside the specification's domain)")
 	}
 	if json.Unmarshal(drv, &spec) != nil || (spec.Err == nil && spec.Environment == nil) {
 		return core.Disagree("malformed spec outcome: " + string(drv))
